@@ -415,6 +415,11 @@ def _c04(o, driver, rng):
         sc["sparse_persistent"] = False       # omitting a persistent output is a simulator-side contract breach (mosaik warns); see DESIGN.md
         if scorr.nonuniform_cutoff(sc, False):
             continue
+        if any(c.get("async") and any(c2["src"] == c["dst"] and c2["seid"] == c["deid"] and c2["dst"] == c["src"] and c2["deid"] == c["seid"]
+                                      for c2 in sc["connects"]) for c in sc["connects"]):
+            # an agent's set_data would write an input key that an ordinary connection feeds as well: which of the two a step sees
+            # depends on the data path (cache / push) - outside what the property (and C16) promises, see DESIGN.md
+            continue
         k += 1
         v, r = dt.cross_config(sc, rng)
         runs += r
